@@ -54,6 +54,27 @@ Section Resolve.
   (* resolveSymlink(node, maxSymlinkDepth); Config validation guarantees maxSymlinkDepth >= 0 *)
   Definition resolve (n : node path) (maxdepth : nat) : result path := loop (S maxdepth) n n false.
 
+  (* the same loop, instrumented: second component = number of getFileNode calls made for the fast
+     pointer (= hops followed), third = calls made for the slow pointer *)
+  Fixpoint loop_i (fuel : nat) (fast slow : node path) (adv : bool) : result path * nat * nat :=
+    match fuel with
+    | 0 => (RDepth, 0, 0)
+    | S f =>
+        if negb (n_symlink fast) then (ROk fast, 0, 0)
+        else match get (n_target fast) with
+             | None => (RNotExist, 1, 0)
+             | Some nx =>
+                 if peqb (n_path nx) (n_path slow) then (RCycle, 1, 0)
+                 else if adv then
+                        match get (n_target slow) with
+                        | None => (RNotExist, 1, 1)
+                        | Some s' => let '(r, a, b) := loop_i f nx s' false in (r, S a, S b)
+                        end
+                      else let '(r, a, b) := loop_i f nx slow true in (r, S a, b)
+             end
+    end.
+  Definition resolve_i (n : node path) (maxdepth : nat) : result path * nat * nat := loop_i (S maxdepth) n n false.
+
   (* FS.Stat: getFileNode, resolveSymlink, resolvedNode.Stat() (whiteout -> ErrNotExist) *)
   Definition stat (name : path) (maxdepth : nat) : result path :=
     match get name with
@@ -116,6 +137,8 @@ End Resolve.
 
 Arguments loop {path}.
 Arguments resolve {path}.
+Arguments loop_i {path}.
+Arguments resolve_i {path}.
 Arguments stat {path}.
 Arguments open {path}.
 Arguments chain {path}.
@@ -144,10 +167,10 @@ Definition pnode := node (list seg).
 Definition plain (p : list seg) (isdir wh : bool) : pnode :=
   {| n_path := p; n_symlink := false; n_target := []; n_whiteout := wh; n_isdir := isdir |}.
 
-(* image.go handleSymlink: an absolute Linkname is stored as written; a relative one becomes
-   path.Clean(path.Join(path.Dir(virtualPath), target)). *)
+(* image.go handleSymlink: an absolute Linkname becomes path.Clean(target), a relative one
+   path.Clean(path.Join(path.Dir(virtualPath), target)) -- both are rooted cleans of the lexical input. *)
 Definition link_target (name : list seg) (abs : bool) (t : list seg) : list seg :=
-  if abs then t else clean_rooted (dir name ++ t).
+  clean_rooted (lexical_input name abs t).
 
 Definition live_node (img : image) (e : entry) : option pnode :=
   match e_kind e with
@@ -371,6 +394,19 @@ Fixpoint slookup (t : stable) (p : list seg) : option snode :=
 Definition s_table (img : image) (i : nat) : stable :=
   flat_map (fun p => match s_get img i p with Some n => [(p, n)] | None => [] end) (candidate_paths img).
 
+(* the oracle's view as a lookup function of the kind the theorems quantify over: a link that must
+   not be followed is absent *)
+Definition snode_node (p : list seg) (s : snode) : option pnode :=
+  match s with
+  | SPlain _ wh => Some (plain p false wh)
+  | SLink tg => Some {| n_path := p; n_symlink := true; n_target := tg; n_whiteout := false; n_isdir := false |}
+  | SEscape => None
+  end.
+Definition sget (t : stable) (p : list seg) : option pnode :=
+  match slookup t p with Some s => snode_node p s | None => None end.
+(* plain entries are stored under their own path *)
+Definition stable_wf (t : stable) : Prop := forall p q wh, slookup t p = Some (SPlain q wh) -> q = p.
+
 Inductive expect :=
 | XTarget (p : list seg) (wh : bool)   (* first non-symlink, within the hop budget *)
 | XNotFound                            (* missing entry reached within the hop budget *)
@@ -441,8 +477,8 @@ Definition rd_meets (strict : bool) (x : expect) (o : rdoutcome) : bool :=
   | _, _ => false
   end.
 
-(* domain of the oracle: absolute link targets are written canonically (known finding
-   abs-target-not-cleaned: handleSymlink stores them as written) *)
+(* absolute link targets written canonically (input-distribution statistic only since the fix of
+   abs-target-not-cleaned: handleSymlink now cleans them like relative ones) *)
 Definition abs_canonical (img : image) : bool :=
   forallb (fun e => match e_kind e with KLink true t => canonical t | _ => true end) (i_entries img).
 
@@ -507,9 +543,8 @@ Definition case_spec_with (strict : bool) (st : list stable) (c : scase) : bool 
 (* the property as written, on everything *)
 Definition case_spec_strict_ok (c : scase) : bool := case_spec_with true (s_tables (c_img c)) c.
 
-(* the property on the domain D: canonical absolute targets, boundary hop excluded *)
-Definition case_spec_ok (c : scase) : bool :=
-  negb (abs_canonical (c_img c)) || case_spec_with false (s_tables (c_img c)) c.
+(* the property on the domain D: boundary hop excluded *)
+Definition case_spec_ok (c : scase) : bool := case_spec_with false (s_tables (c_img c)) c.
 
 (* number of observations that fall on the boundary excluded from the oracle (known finding) *)
 Definition case_boundary_count_with (st : list stable) (c : scase) : nat :=
